@@ -512,7 +512,8 @@ class Weaver:
         is_trait = bool(header) and re.search(r'\bfor\b', re.sub(r'<[^<>]*>', '', header)) is not None and it['as_header'] is None
         origin = dict(kind='fn', file=it['file'], first=r['line_first'], last=r['line_last'],
                       spec=it['spec'], spec_line=it['seclines'].get(sec_used, it['line']),
-                      n_head=1 + head.count('\n'), n_spec=len(spec_lines), n_proof=(len(proof) + 2 if proof else 0))
+                      n_head=1 + head.count('\n'), n_spec=len(spec_lines), n_proof=(len(proof) + 2 if proof else 0),
+                      fn_idx=len(self.funcs))
         if header:
             if is_trait:
                 key = norm(header)
@@ -554,13 +555,13 @@ class Weaver:
                     if isinstance(o, dict):
                         def of(i, o=o):
                             if i < o['n_head']:
-                                return ('repo-sig', o['file'], o['first'])
+                                return ('repo-sig', o['file'], o['first'], o['fn_idx'])
                             i2 = i - o['n_head']
                             if i2 < o['n_spec']:
-                                return ('spec', o['spec'], o['spec_line'] + i2)
+                                return ('spec', o['spec'], o['spec_line'] + i2, o['fn_idx'])
                             i3 = i2 - o['n_spec']
                             # body (approximate when proof lines/loop specs were inserted)
-                            return ('repo', o['file'], min(o['last'], o['first'] + max(0, i3 - o['n_proof'])))
+                            return ('repo', o['file'], min(o['last'], o['first'] + max(0, i3 - o['n_proof'])), o['fn_idx'])
                         if m.strip():
                             add(m, of)
                     else:
